@@ -35,7 +35,8 @@ TOLERANCES = {"error_norm_recomputation": "1e-9 relative", "dt_min": "trial >= d
 
 @st.composite
 def _case(draw, tier):
-    spec, combo = draw(solve.spec_and_combo(all_levy=False))
+    # single-precision states too (times stay float64 tensors): the error norm and its floor are the same formula
+    spec, combo = draw(solve.spec_and_combo(all_levy=False, dtypes=("float64", "float64", "float32")))
     spec["gscale"] = draw(st.sampled_from([0.3, 1.0, 2.0, 5.0]))
     spec["fscale"] = draw(st.sampled_from([0.5, 1.0, 4.0]))
     t0 = draw(st.sampled_from([0.0, 0.0, -0.5, 1.0, 0.1]))
@@ -196,7 +197,7 @@ def run_case(case):
         tolv = (rtol * torch.max(y11.abs(), y12.abs()) + atol).clamp_min(1e-7)
         mine = float(torch.sqrt((((y11 - y12) / tolv) ** 2).mean()).clamp_min(1e-7))
         checks += 1
-        if not abs(mine - err) <= 1e-9 * max(1.0, abs(mine)):
+        if not abs(mine - err) <= (1e-9 if y11.dtype == torch.float64 else 1e-4) * max(1.0, abs(mine)):
             return fail("error_norm", f"error estimate {err!r} differs from the mixed rtol/atol RMS norm {mine!r}")
         new_step = updates[k][2]
         at_min = new_step < dt_min or new_step <= dt_min
